@@ -244,6 +244,13 @@ func runLifeScript(sc *LifeScript, seed int64, watchdog time.Duration) *LifeResu
 				case "clearhash":
 					s.ClearHash()
 				case "resize":
+					// as 'setoption name Hash value N' does: the configured size changes, then the cache is resized
+					// (or the resize is refused because a search is running - the configured size stays changed)
+					if config.Settings.Search.TTSize == 8 {
+						config.Settings.Search.TTSize = 4
+					} else {
+						config.Settings.Search.TTSize = 8
+					}
 					s.ResizeCache()
 				case "isready":
 					s.IsReady()
